@@ -200,6 +200,9 @@ func bOf(v int) string {
 	if v < 0 {
 		return "rx"
 	}
+	if v == 7 {
+		return "" // the empty string: a value, not NULL
+	}
 	if v == 8 {
 		return "r8" + strings.Repeat("y", 388) // the encoded row is exactly 400 bytes: the largest row the engine accepts
 	}
